@@ -13,7 +13,10 @@ import Driver.Util
                                                   the buffer runs through, the first step that loses data (if any)
 
     begin L K N name_0 .. name_{N-1}  -> ok <keep_domain> <meta>
-    feed i s HEX | eof i s | drain i s | flush i   -> <ncalls> <last ret> <th->rc> | S:HEX ...
+    feed i s HEX [CAP [NEINTR]] | eof i s [CAP [NEINTR]] | drain i s [CAP [NEINTR]] | flush i
+                                                    -> <ncalls> <last ret> <th->rc> | S:HEX ...
+        (CAP: the read(2) of the handler call delivers at most CAP bytes -- `handleCap`; 0 = EAGAIN although
+         data is there; NEINTR: that many reads fail with EINTR first -- retried inside cbuf.c, invisible here)
     run i s HEX ...  (whole stream = `runStream`)   -> run <th->rc|-> | S:HEX ...
     xrc HEX                                         -> <ret> <string left>
 
@@ -80,6 +83,9 @@ def step (ops : BufOps β) (mk : Option β) (sizeMeta : Nat) (split : Bool)
               some { cs with hosts := cs.hosts.set i host' }
             let sno : Nat := if isErr then 2 else 1
             let readRc := !isErr
+            -- optional read cap of the handler call(s): `feed i s HEX [CAP [NEINTR]]`, `eof i s [CAP [NEINTR]]`,
+            -- `drain i s [CAP [NEINTR]]`; CAP = a number or `-` (none); the EINTR count is invisible to the model
+            let capOf (w : Option String) : Option Nat := w.bind String.toNat?
             if strm.closed then (st, "closed")
             else if op = "feed" then
               match Hex.decode (more.head?.getD "-") with
@@ -87,11 +93,12 @@ def step (ops : BufOps β) (mk : Option β) (sizeMeta : Nat) (split : Bool)
                 if strm.weof ∧ !bs.isEmpty then (st, "bad-op")
                 else
                   let (r, strm', rc', ems) :=
-                    handle ops cs.cfg host.name sno readRc { strm with pipe := strm.pipe ++ bs } host.rc
+                    handleCap ops cs.cfg host.name sno readRc (capOf more[1]?) { strm with pipe := strm.pipe ++ bs } host.rc
                   (put strm' rc', answer 1 r rc' ems)
               | none => (st, "bad-op")
             else if op = "eof" then
-              let (r, strm', rc', ems) := handle ops cs.cfg host.name sno readRc { strm with weof := true } host.rc
+              let (r, strm', rc', ems) :=
+                handleCap ops cs.cfg host.name sno readRc (capOf more[0]?) { strm with weof := true } host.rc
               (put strm' rc', answer 1 r rc' ems)
             else if op = "run" then
               -- a whole stream at once: `runStream`, the function the theorems of Props/C05, C06 are about
@@ -105,9 +112,16 @@ def step (ops : BufOps β) (mk : Option β) (sizeMeta : Nat) (split : Bool)
             else if op = "drain" then
               if !strm.weof then (st, "bad-op not-eof")
               else
-                let (k, r, strm', rc', ems) :=
-                  drain ops cs.cfg host.name sno readRc (strm.pipe.length + 1) strm host.rc [] 0
-                (put strm' rc', answer k r rc' ems)
+                match capOf more[0]? with
+                | none =>
+                  let (k, r, strm', rc', ems) :=
+                    drain ops cs.cfg host.name sno readRc (strm.pipe.length + 1) strm host.rc [] 0
+                  (put strm' rc', answer k r rc' ems)
+                | some 0 => (st, "bad-op cap")          -- would never end
+                | some c =>
+                  let (k, r, strm', rc', ems) :=
+                    drainCap ops cs.cfg host.name sno readRc (some c) (strm.pipe.length + 1) strm host.rc [] 0
+                  (put strm' rc', answer k r rc' ems)
             else (st, "bad-op")
           | [] => (st, "bad-op")
       else (st, "bad-op")
